@@ -156,7 +156,7 @@ def run(ctx, rep) -> None:
     rep.rule("C11.1", "shape rejection dominates every solver / fast path; positive-root guard dominates the power")
     rep.rule("C11.2", "every eigenvalue is shifted by -min(lambda_min, 0) and regularised by +epsilon before the power, on both enhance_stability branches")
     rep.rule("C11.3", "decomposition failure: retry in double precision only under the flag and a non-float64 dtype, otherwise re-raise")
-    shape_guards(ctx, rep, "C11.1")
-    eigen_shift(ctx, rep, "C11.2")
-    retry_rule(ctx, rep, "C11.3")
+    rep.attempt("shape_guards", shape_guards, ctx, rep, "C11.1")
+    rep.attempt("eigen_shift", eigen_shift, ctx, rep, "C11.2")
+    rep.attempt("retry_rule", retry_rule, ctx, rep, "C11.3")
     rep.assume("finiteness, symmetry, the eigenvalue bound, commutation and equivariance of the result are numerical and NOT decided; C11.2 decides the scalar recurrence applied to each eigenvalue")
